@@ -1,5 +1,6 @@
 """C02 — sequential NFSv3 semantics match a reference file system."""
 import seqlib
+import fscklib
 import vlib
 
 MODULE = "GoNfsd.Props.C02"
@@ -12,6 +13,9 @@ def run(ctx):
         lines, tr = seqlib.run_seq(ctx, args)
         if lines is not None:
             seqlib.analyse(ctx, lines, tr, ok_drv, "C02", oracle_props=["C02", "C13", "C19", "C08"])
+    if ok_go:
+        # block level: the block map of a real file before/after each operation against the transliterated bmap/Shrink
+        fscklib.run_blockmap(ctx, ok_drv, ["-cases", "100", "-ops", "30"] if ctx.tier == "thorough" else ["-cases", "24", "-ops", "25"])
     vlib.finish(
         ctx, "proof",
         "theorems about the reference model (read-only procedures and restarts are the identity, written bytes are read back, created names "
